@@ -44,6 +44,12 @@ def corpus():
             "insts": [{"n": "i", "of": {"k": "module", "name": "Inner"}, "conns": [[f"b{k}", ab] for k in (3, 1, 4, 2)]},
                       {"n": "j", "of": {"k": "module", "name": "Inner"}, "conns": [[f"b{k}", ab] for k in (2, 4)] + [[f"b{k}", {"k": "anon", "fields": ab["fields"]}] for k in (1, 3)]}]}
     out += [{"design": {"bundles": [bdef], "modules": [inner, top2], "top": "Top"}, "style": s} for s in ("proc", "class")]
+    # one reference to a sub-bundle feeding several bundle-valued ports of one instance (resolved when the outer bundle is flattened)
+    bo = {"name": "BO", "tree": {"sigs": [lf("z", 1)], "subs": [{"n": "sub", "flip": False, "role": None, "of": {"sigs": [lf("x", 1), lf("y", 1)], "subs": []}}]}}
+    sref = {"k": "bref", "root": "bb", "path": ["sub"]}
+    top3 = {"name": "Top", "sigs": [], "bundles": [{"n": "bb", "of": "BO", "port": False}],
+            "insts": [{"n": "i", "of": {"k": "module", "name": "Inner"}, "conns": [[f"b{k}", dict(sref)] for k in (2, 4, 1, 3)]}]}
+    out += [{"design": {"bundles": [bdef, bo], "modules": [inner, top3], "top": "Top"}, "style": s} for s in ("proc", "class")]
     # groups of port references with no declared signal, where several ports of one instance hang on the same reference: the implicit
     # signal's name must not depend on which of them is met first
     E4 = {"k": "leaf", "kind": ".E4", "ports": [{"n": p, "w": 1} for p in ("p", "q", "r", "w")], "params": [], "py": {"k": "ext", "name": "E4"}}
